@@ -806,6 +806,31 @@ pub(crate) fn c09_ref_oracle(spec: &PacketSpec, st: &mut Stats) -> Verdict {
     if let Some((short, detail)) = diff(&expected, &observed) {
         fail!(format!("C09:{}:{short}", spec.long_name()), "{detail}; bytes {}", hex(&bytes));
     }
+    // RFC 3550 defines only the last padding octet (the count): an encoder may leave anything in the others
+    let pad = spec.padding() as usize;
+    if pad >= 2 && !matches!(spec, PacketSpec::Compound(_)) && pad < bytes.len() {
+        st.label("padding filled with non-zero octets");
+        let mut filled = bytes.clone();
+        let n = filled.len();
+        for (i, x) in filled[n - pad..n - 1].iter_mut().enumerate() {
+            *x = 0xa5 ^ (i as u8).wrapping_mul(0x3b) | 1;
+        }
+        let mut obs = observe_packet(&filled).map_err(|f| Failure::new(format!("C09:{}:{}", spec.long_name(), f.signature), f.detail))?;
+        if let Some(e) = obs.get("error") {
+            fail!(format!("C09:{}:well-formed-packet-rejected:padding-octets", spec.long_name()), "the parser rejects a well-formed packet whose padding octets are not zero with {e}; bytes {}", hex(&filled));
+        }
+        if let Some(o) = obs.as_object_mut() {
+            o.remove("fci");
+        }
+        // an unknown packet exposes its bytes as they are, padding included
+        let mut expected = expected.clone();
+        if expected.get("bytes").is_some() {
+            expected["bytes"] = serde_json::Value::String(hex(&filled));
+        }
+        if let Some((short, detail)) = diff(&expected, &obs) {
+            fail!(format!("C09:{}:{short}:padding-octets", spec.long_name()), "{detail}; bytes {}", hex(&filled));
+        }
+    }
     // the unknown parser exposes the same packet unchanged
     let same = no_panic("Unknown::parse", || Unknown::parse(&bytes).map(|u| u.data().as_ptr() == bytes.as_ptr() && u.data().len() == bytes.len()))?;
     ensure!(same == Ok(true), format!("C09:{}:unknown-view", spec.long_name()), "Unknown::parse of a well-formed packet: {same:?}");
